@@ -727,7 +727,9 @@ PLANS = {
     "C10": Plan("nc", "TraceNetcodeMon", ["C10"], [("handshake_histories", g_nc_handshake), ("payload_histories", g_nc_payload)],
                 mc=[mc_job("nc_table", "MC_Netcode", {"quick": ["MC_NC_q2.cfg", "MC_NC_q6.cfg"],
                                                              "thorough": ["MC_NC_q1.cfg", "MC_NC_q2.cfg", "MC_NC_q3.cfg", "MC_NC_q5.cfg", "MC_NC_q6.cfg"]}, ["C10"], strict=False, cap_q=1000),
-                    mc_job("nc_limit", "MC_Netcode", {"quick": ["MC_NC_limit.cfg"], "thorough": ["MC_NC_limit.cfg"]}, ["C10"], strict=False, cap_q=400)],
+                    mc_job("nc_limit", "MC_Netcode", {"quick": ["MC_NC_limit.cfg"], "thorough": ["MC_NC_limit.cfg"]}, ["C10"], strict=False, cap_q=400),
+                    # ServerAuthentication::Unsecure: zero-key tokens listing any host connect, tokens sealed with the real key do not
+                    mc_job("nc_unsec", "MC_Netcode", {"quick": ["MC_NC_unsec.cfg"], "thorough": ["MC_NC_unsec.cfg", "MC_NC_unsec_t.cfg"]}, ["C10"], strict=False, cap_q=500)],
                 level="model_checking", assumptions=NC_ASSUME),
     "C16": Plan("msg", "TraceRenetMon", ["C16"],
                 [("wire_renet", g_wire_renet, "msg", "TraceRenetMon"), ("wire_netcode", g_wire_netcode, "nc", "TraceNetcodeMon"),
